@@ -5,6 +5,7 @@
      an_yield_inside_mode_block : some `yield` of An.evaluate sits inside such a block (the generator is then SUSPENDED
                                    while holding a pending restore of the mode it saw at its first resumption)
      an_close_under_mode_off, the_mode_off
+     block_restores_entry_mode : symbolic_mode / rule_mode save the mode found on entry and write it back on every exit
    The model below covers both bracketings; the theorems need the good one and so re-check the source on every run. *)
 From EQL Require Import Base Generated.
 
@@ -43,7 +44,10 @@ Definition leave (s : state) : state :=
   match frames s with
   | [] => s
   | f :: fs =>
-      {| cur := match f_block f with BWithQ => cur s | _ => f_prev f end;      (* `with q:` does not touch the mode *)
+      {| cur := match f_block f with
+                | BWithQ => cur s                                              (* `with q:` does not touch the mode *)
+                | _ => if block_restores_entry_mode then f_prev f else cur s   (* Generated: symbolic_mode's finally clause *)
+                end;
          frames := fs; estack := if pushes (f_block f) then estack s - 1 else estack s; iters := iters s |}
   end.
 
